@@ -90,6 +90,11 @@ func NewTxGen(h *History) *TxGen {
 		{"freshness", 1, (*TxGen).mkFreshness},
 		{"garbage", 1, (*TxGen).mkGarbage},
 		{"replay", 2, (*TxGen).mkReplay},
+		// "post:" intents fail (if at all) after authentication.
+		{"vault-create", 1, (*TxGen).mkVaultCreate},
+		{"vault-authorize", 4, (*TxGen).mkVaultAuthorize},
+		{"vault-cancel", 1, (*TxGen).mkVaultCancel},
+		{"vault-fund", 2, (*TxGen).mkVaultFund},
 	}
 	if h.Sc.Runtime != nil { // runtime support
 		g.makers = append(g.makers,
@@ -194,6 +199,11 @@ func (g *TxGen) fee(opCost uint64) *transaction.Fee {
 	}
 	f := &transaction.Fee{Gas: transaction.Gas(gas)}
 	_ = f.Amount.FromUint64(gas * price)
+	if g.h.Sc.P.MinGasPrice == 0 && g.rng.IntN(4) == 0 {
+		// Without a minimum gas price any amount is acceptable: tiny fees exercise the
+		// rounding of the fee split (shares that round to zero, remainders).
+		_ = f.Amount.FromUint64(uint64(1 + g.rng.IntN(24)))
+	}
 	if g.rng.IntN(25) == 0 {
 		return nil // no fee at all
 	}
@@ -337,7 +347,7 @@ func (g *TxGen) mkRegisterEntity() *GenTx {
 	case 1:
 		// list a foreign node too
 		o := sc.Entities[g.rng.IntN(len(sc.Entities))]
-		nodes = append(append([]*SimNode(nil), nodes...), o.Nodes[0])
+		nodes = append(append([]*SimNode(nil), nodes...), o.Nodes[g.rng.IntN(len(o.Nodes))])
 	}
 	ed := EntityDescriptor(e, nodes)
 	se, err := entity.SignEntity(e.Signer, registry.RegisterEntitySignatureContext, ed)
@@ -412,8 +422,75 @@ func (g *TxGen) renewNode(n *SimNode, extra int) *GenTx {
 func (g *TxGen) mkRegisterNode() *GenTx {
 	nodes := g.h.Sc.AllNodes()
 	n := nodes[g.rng.IntN(len(nodes))]
-	mode := g.rng.IntN(12)
+	mode := g.rng.IntN(14)
 	switch {
+	case mode == 12:
+		// Change the roles of a node: upgrades are allowed, downgrades of a live node are not
+		// (rejected late, after the stake claims were recomputed).
+		oldRoles, oldRts := n.Roles, n.Runtimes
+		switch {
+		case n.Roles&node.RoleValidator != 0 && n.Roles&node.RoleComputeWorker != 0:
+			if g.rng.IntN(2) == 0 {
+				n.Roles &^= node.RoleValidator
+			} else {
+				n.Roles &^= node.RoleComputeWorker
+				n.Runtimes = nil
+			}
+		case n.Roles&node.RoleValidator != 0 && g.h.Sc.Runtime != nil && g.rng.IntN(2) == 0:
+			// validator -> compute-only
+			n.Roles = node.RoleComputeWorker
+			n.Runtimes = []*node.Runtime{{ID: g.h.Sc.Runtime.ID, Version: g.h.Sc.Runtime.Deployments[0].Version}}
+		default:
+			n.Roles |= node.RoleObserver
+		}
+		newRoles := n.Roles
+		nd := NodeDescriptor(n, beacon.EpochTime(g.view().Epoch+2))
+		sn := signNode(NodeSigners(n), nd)
+		n.Roles, n.Runtimes = oldRoles, oldRts
+		tx := registry.NewRegisterNodeTx(g.nonce(n.Keys.ID), g.feeSure(g.nodeGas(n)+4000), sn)
+		gt := g.finish(n.Keys.ID, tx, n.Name+" role-change")
+		gt.Intent = "post:role-change"
+		gt.OnSuccess = func() {
+			// Only role additions that keep the harness's bookkeeping valid are adopted.
+			if newRoles&oldRoles == oldRoles && newRoles&node.RoleComputeWorker == oldRoles&node.RoleComputeWorker {
+				n.Roles, n.Desc = newRoles, nd
+			}
+			g.Notes["role-change"]++
+		}
+		return gt
+	case mode == 13:
+		// Re-register a node under another entity (one that lists it, if any does).
+		old := n.Entity
+		var cands, listing []*SimEntity
+		for _, e := range g.h.Sc.Entities {
+			if e == old {
+				continue
+			}
+			cands = append(cands, e)
+			if re := g.view().Entities[e.PK]; re != nil {
+				for _, id := range re.Nodes {
+					if id.Equal(n.Keys.ID.PK) {
+						listing = append(listing, e)
+					}
+				}
+			}
+		}
+		if len(cands) == 0 || g.view().Nodes[n.Keys.ID.PK] == nil {
+			return g.renewNode(n, 2)
+		}
+		o := cands[g.rng.IntN(len(cands))]
+		if len(listing) > 0 {
+			o = listing[g.rng.IntN(len(listing))]
+		}
+		n.Entity = o
+		nd := NodeDescriptor(n, beacon.EpochTime(g.view().Epoch+2))
+		sn := signNode(NodeSigners(n), nd)
+		n.Entity = old
+		tx := registry.NewRegisterNodeTx(g.nonce(n.Keys.ID), g.feeSure(g.nodeGas(n)+4000), sn)
+		gt := g.finish(n.Keys.ID, tx, n.Name+" entity-change to "+o.Name)
+		gt.Intent = "post:entity-change"
+		gt.OnSuccess = func() { g.Notes["entity-change"]++ }
+		return gt
 	case mode < 4:
 		return g.renewNode(n, 2)
 	case mode < 7:
@@ -699,7 +776,7 @@ func (g *TxGen) Next(height int64) []*GenTx {
 		if gt.Signer != nil && gt.Tx != nil && (gt.Intent == "valid" || gt.Intent == "gas-too-low" || gt.Intent == "malformed-body" ||
 			gt.Intent == "wrong-tx-signer" || gt.Intent == "missing-signature" || gt.Intent == "extra-signature" ||
 			gt.Intent == "duplicate-subkey" || gt.Intent == "bad-expiration" || gt.Intent == "forbidden-update" || gt.Intent == "former-owner-update" ||
-			strings.HasPrefix(gt.Intent, "rt:")) && gt.Tx.Nonce == g.nonce(gt.Signer) { // runtime support: "rt:" intents fail after authentication
+			strings.HasPrefix(gt.Intent, "rt:") || strings.HasPrefix(gt.Intent, "post:")) && gt.Tx.Nonce == g.nonce(gt.Signer) { // runtime support: "rt:" intents fail after authentication
 			g.bump(gt.Signer)
 		}
 	}
